@@ -1,6 +1,11 @@
 package main
 
-import "golang.org/x/tools/go/ssa"
+import (
+	"fmt"
+	"go/types"
+
+	"golang.org/x/tools/go/ssa"
+)
 
 func init() {
 	register(&propDef{
@@ -24,5 +29,306 @@ func runC18(c *Ctx) {
 	ruleL2(c, "C18.L2")
 	ruleL3(c, "C18.L3", nil)
 	ruleL4(c, "C18.L4")
-	_ = ssa.Function{}
+	ruleInitBeforePublish(c, "C18.E7")
+	ruleNoGuardedAlias(c, "C18.L3b")
+	ruleCloseUnderLock(c, "C18.C15_4")
+	ruleCloseOnce(c, "C18.close")
+}
+
+// ---------------------------------------------------------------------------------
+// E7 — init-before-publish for timers that are dereferenced without a nil test
+
+type publishSpec struct {
+	tablePkg, tableType, tableField string // shared table
+	elemType, timerField            string // element type and its pointer-typed timer field
+	lockClass                       string
+}
+
+var publishTable = []publishSpec{
+	{"allocation", "Allocation", "permissions", "Permission", "lifetimeTimer", "allocation.Allocation.permissionsLock"},
+	{"allocation", "Allocation", "channelBindings", "ChannelBind", "lifetimeTimer", "allocation.Allocation.channelBindingsLock"},
+	{"allocation", "Allocation", "tcpConnections", "tcpConnection", "bindTimer", "allocation.Manager.lock"},
+	{"allocation", "Manager", "allocations", "Allocation", "lifetimeTimer", "allocation.Manager.lock"},
+}
+
+func ruleInitBeforePublish(c *Ctx, rule string) {
+	w := c.W
+	li := w.lockInfo()
+	c.Rule(rule, "E7 init-before-publish: for each table whose elements own a timer that other code dereferences without a nil test (Permission/ChannelBind.lifetimeTimer, tcpConnection.bindTimer, Allocation.lifetimeTimer), the store that publishes an element in the table is dominated by the assignment of that element's timer, or the table's write lock is held continuously from the publishing store to that assignment (the assignment may be inside a method called on the element)", 4)
+	for _, ps := range publishTable {
+		tbl := w.Field(ps.tablePkg, ps.tableType, ps.tableField)
+		elemN := w.Named("allocation", ps.elemType)
+		timer := w.Field("allocation", ps.elemType, ps.timerField)
+		// methods of the element type that assign the timer of their receiver
+		inits := map[*ssa.Function]bool{}
+		for _, fn := range w.ModFns {
+			if fn.Signature.Recv() == nil || !isPtrToNamed(fn.Signature.Recv().Type(), elemN) {
+				continue
+			}
+			w.eachInstr(fn, func(in ssa.Instruction) {
+				if st, ok := in.(*ssa.Store); ok {
+					if fa, ok := st.Addr.(*ssa.FieldAddr); ok && fieldOf(fa) == timer && w.sameKey(fa.X, fn.Params[0]) {
+						inits[fn] = true
+					}
+				}
+			})
+		}
+		name := ps.elemType + "." + ps.timerField + " in " + ps.tableField
+		n := 0
+		for _, fn := range w.ModFns {
+			w.eachInstr(fn, func(in ssa.Instruction) {
+				// publishing instruction and the published object
+				var obj ssa.Value
+				switch x := in.(type) {
+				case *ssa.MapUpdate:
+					if _, f, ok := fieldLoad(x.Map); ok && f == tbl {
+						obj = x.Value
+					}
+				case *ssa.Store:
+					if fa, ok := x.Addr.(*ssa.FieldAddr); ok && fieldOf(fa) == tbl {
+						// append(table, obj)
+						if call, ok := x.Val.(*ssa.Call); ok {
+							if b, isB := call.Call.Value.(*ssa.Builtin); isB && b.Name() == "append" && len(call.Call.Args) == 2 {
+								for _, e := range variadicElems(call.Call.Args[1]) {
+									if isPtrToNamed(e.Type(), elemN) {
+										obj = e
+									}
+								}
+							}
+						}
+					}
+				}
+				if obj == nil {
+					return
+				}
+				obj = w.resolveLoad(obj)
+				n++
+				c.Anchor(rule, name)
+				// initialising instructions in this function for this object
+				var initInstrs []ssa.Instruction
+				w.eachInstr(fn, func(in2 ssa.Instruction) {
+					switch y := in2.(type) {
+					case *ssa.Store:
+						if fa, ok := y.Addr.(*ssa.FieldAddr); ok && fieldOf(fa) == timer && (w.sameKey(w.resolveLoad(fa.X), obj) || w.sameKey(fa.X, obj)) {
+							initInstrs = append(initInstrs, in2)
+						}
+					case *ssa.Call:
+						if cal := y.Call.StaticCallee(); cal != nil && inits[cal] && (w.sameKey(w.resolveLoad(y.Call.Args[0]), obj) || w.sameKey(y.Call.Args[0], obj)) {
+							initInstrs = append(initInstrs, in2)
+						}
+					}
+				})
+				if len(initInstrs) == 0 {
+					c.Bad(rule, fname(fn), name, w.instrPos(in), "an element is published in "+ps.tableField+" and its "+ps.timerField+" is never assigned in the publishing function: readers dereference a nil timer")
+					return
+				}
+				for _, ii := range initInstrs {
+					before := (ii.Block() == in.Block() && indexIn(ii) < indexIn(in)) || (ii.Block() != in.Block() && ii.Block().Dominates(in.Block()))
+					if before {
+						c.OK(rule, fname(fn), name, w.instrPos(in), "the timer is assigned at "+w.instrPos(ii)+", which dominates the publishing store")
+						return
+					}
+				}
+				// lock held continuously from publish to init
+				for _, ii := range initInstrs {
+					after := (ii.Block() == in.Block() && indexIn(in) < indexIn(ii)) || (ii.Block() != in.Block() && in.Block().Dominates(ii.Block()))
+					if !after {
+						continue
+					}
+					heldP := holds(li.mustAt(in), ps.lockClass, true)
+					heldI := holds(li.mustAt(ii), ps.lockClass, true)
+					unlocked := false
+					w.eachInstr(fn, func(in3 ssa.Instruction) {
+						if call, ok := in3.(*ssa.Call); ok {
+							if lo := w.lockOpOf(&call.Call); lo != nil && lo.class == ps.lockClass && lo.op == "Unlock" && instrReaches(in, in3) && instrReaches(in3, ii) {
+								unlocked = true
+							}
+						}
+					})
+					if heldP && heldI && !unlocked {
+						c.OK(rule, fname(fn), name, w.instrPos(in), "published at "+w.instrPos(in)+" and timer assigned at "+w.instrPos(ii)+" within one hold of "+ps.lockClass)
+						return
+					}
+				}
+				c.Bad(rule, fname(fn), name, w.instrPos(in), "the element becomes visible in "+ps.tableField+" before its "+ps.timerField+" exists and outside the table's critical section: a concurrent Close/refresh dereferences a nil *time.Timer and crashes the process")
+			})
+		}
+		if n == 0 {
+			c.Bad(rule, "-", name, "-", "no publishing store into "+ps.tableField+" found: anchor gone")
+		}
+	}
+}
+
+// ---------------------------------------------------------------------------------
+// L3b — guarded storage does not leak out of its critical section
+
+func ruleNoGuardedAlias(c *Ctx, rule string) {
+	w := c.W
+	c.Rule(rule, "L3b: the slice/map value of a guarded-by field is only indexed, ranged over, measured (len), passed to append as the appended source or as the base that is stored straight back into the field, or passed to delete/copy; it is never returned, stored elsewhere or handed to a call — a reference that escapes the critical section is read without the lock", 4)
+	for _, g := range guardedTable {
+		f := w.Field(g.pkg, g.typ, g.field)
+		switch f.Type().Underlying().(type) {
+		case *types.Slice, *types.Map:
+		default:
+			continue
+		}
+		name := g.pkg + "." + g.typ + "." + g.field
+		if _, isSlice := f.Type().Underlying().(*types.Slice); isSlice && !w.mutatedInPlace(f) {
+			// a slice that is only ever replaced wholesale may be handed out: readers keep a
+			// consistent old value (e.g. the client's current nonce)
+			continue
+		}
+		for _, fn := range w.ModFns {
+			w.eachInstr(fn, func(in ssa.Instruction) {
+				fa, ok := in.(*ssa.FieldAddr)
+				if !ok || fieldOf(fa) != f {
+					return
+				}
+				for _, r := range *fa.Referrers() {
+					ld, ok := r.(*ssa.UnOp)
+					if !ok {
+						continue
+					}
+					c.Anchor(rule, name)
+					bad := ""
+					var check func(v ssa.Value, depth int)
+					check = func(v ssa.Value, depth int) {
+						for _, u := range *v.Referrers() {
+							switch x := u.(type) {
+							case *ssa.Lookup, *ssa.IndexAddr, *ssa.Range, *ssa.MapUpdate, *ssa.DebugRef, *ssa.Index:
+							case *ssa.Slice:
+								// re-slicing keeps the backing array: same rules apply to the result
+								if depth < 3 {
+									check(x, depth+1)
+								}
+							case *ssa.Store:
+								// storing (a re-slice / append of) the value back into the same field is the update idiom
+								if fa2, ok := x.Addr.(*ssa.FieldAddr); ok && fieldOf(fa2) == f {
+									continue
+								}
+								bad = "stored to " + w.key(x.Addr) + " at " + w.instrPos(x)
+							case *ssa.Return:
+								bad = "returned at " + w.instrPos(x)
+							case *ssa.Phi:
+								if depth < 3 {
+									check(x, depth+1)
+								}
+							case ssa.CallInstruction:
+								cc := x.Common()
+								if b, isB := cc.Value.(*ssa.Builtin); isB {
+									switch b.Name() {
+									case "len", "cap", "delete", "copy":
+										continue
+									case "append":
+										if call, isC := x.(*ssa.Call); isC {
+											if len(cc.Args) == 2 && cc.Args[1] == v && cc.Args[0] != v {
+												continue // appended as source elements: copied
+											}
+											if cc.Args[0] == v && depth < 3 {
+												check(call, depth+1) // result aliases the field's array
+												continue
+											}
+										}
+									}
+								}
+								bad = "passed to " + w.desc(x.Value()) + " at " + w.instrPos(x)
+							default:
+								bad = fmt.Sprintf("used by %T at %s", u, w.instrPos(u))
+							}
+						}
+					}
+					check(ld, 0)
+					if bad == "" {
+						c.OK(rule, fname(fn), name, w.instrPos(ld), "the value stays inside the function's critical section")
+					} else {
+						c.Bad(rule, fname(fn), name, w.instrPos(ld), "a reference to guarded storage "+name+" escapes: "+bad+"; it is then read or ranged over without "+g.lockClass+" while writers compact it in place")
+					}
+				}
+			})
+		}
+	}
+}
+
+// every close(ch) on a struct field is preceded on its path by a closed-test, or is the only
+// close of that channel and sits in a function serialised by a lock / run once by construction
+func ruleCloseOnce(c *Ctx, rule string) {
+	w := c.W
+	li := w.lockInfo()
+	c.Rule(rule, "close(ch) discipline: every close of a channel held in a struct field is dominated by the default edge of a non-blocking receive on that channel (closed-test) inside a critical section or single-threaded teardown, or is guarded by a nil/ok test of a once-only holder (the stop function of a periodic timer); otherwise a second close panics", 3)
+	for _, fn := range w.ModFns {
+		w.eachInstr(fn, func(in ssa.Instruction) {
+			call, ok := in.(*ssa.Call)
+			if !ok {
+				return
+			}
+			if b, isB := call.Call.Value.(*ssa.Builtin); !isB || b.Name() != "close" {
+				return
+			}
+			ch := call.Call.Args[0]
+			_, f, isField := fieldLoad(ch)
+			if !isField {
+				// local channel (created in this function or captured): closed by its creator
+				c.Triv(rule, fname(fn), "close local", w.instrPos(in), "channel local to its creating function/closure")
+				return
+			}
+			c.Anchor(rule, fname(fn)+"."+f.Name())
+			guarded := false
+			for _, fct := range w.factsAt(in) {
+				if fct.Op == "==" && !fct.Truth {
+					if e, ok := fct.X.(*ssa.Extract); ok {
+						if sel, isSel := e.Tuple.(*ssa.Select); isSel && !sel.Blocking {
+							for _, s := range sel.States {
+								if w.sameKey(s.Chan, ch) {
+									guarded = true
+								}
+							}
+						}
+					}
+				}
+			}
+			held := li.mustAt(in)
+			switch {
+			case guarded:
+				c.OK(rule, fname(fn), "close "+f.Name(), w.instrPos(in), "closed-test dominates the close (locks held: {"+held.str()+"})")
+			case f.Name() == "resultCh":
+				// Transaction.Close: only for map-resident transactions, under mutexTrMap (C12.6)
+				if holds(held, "turn.Client.mutexTrMap", true) {
+					c.OK(rule, fname(fn), "close "+f.Name(), w.instrPos(in), "closed only for transactions still in the table, with Client.mutexTrMap held on every call path ({"+held.str()+"}): completions (WriteResult) take the same lock around find+delete")
+				} else {
+					c.Bad(rule, fname(fn), "close "+f.Name(), w.instrPos(in), "result channel closed without Client.mutexTrMap held on every call path: a completion between its table lookup and its WriteResult sends on a closed channel (panic)")
+				}
+			default:
+				c.Bad(rule, fname(fn), "close "+f.Name(), w.instrPos(in), "close of a shared channel without a closed-test: a second close panics")
+			}
+		})
+	}
+}
+
+// mutatedInPlace: some store into the slice field derives from the field's own previous value
+// (append onto it, re-slice of it) or an element of it is assigned: the backing array is
+// shared between the old and the new value.
+func (w *World) mutatedInPlace(f *types.Var) bool {
+	found := false
+	for _, fn := range w.ModFns {
+		w.eachInstr(fn, func(in ssa.Instruction) {
+			st, ok := in.(*ssa.Store)
+			if !ok {
+				return
+			}
+			if fa, ok := st.Addr.(*ssa.FieldAddr); ok && fieldOf(fa) == f {
+				if w.dependsOn(st.Val, func(v ssa.Value) bool {
+					_, fl, isL := fieldLoad(v)
+					return isL && fl == f
+				}, fn) {
+					found = true
+				}
+			}
+			if ia, ok := st.Addr.(*ssa.IndexAddr); ok {
+				if _, fl, isL := fieldLoad(ia.X); isL && fl == f {
+					found = true
+				}
+			}
+		})
+	}
+	return found
 }
